@@ -230,3 +230,128 @@ def len_index_symmetry(ctx, prog, scope=None, floor=30):
                             ctx.ob(R, "%s: call %s const generic %s matches the field index" % (f.short, nm, g), g[-1] in idx and len(idx) == 1,
                                    "fields %s with %s" % (names, g), f.loc(t["sp"]))
     ctx.floor(R, n, floor, "indexed-field pairings inside one object%s" % ("" if scope is None else " in scope"))
+
+
+FULL_EQ = {
+    "internals::hash::FuzzyHashData": ("blockhash1", "blockhash2", "len_blockhash1", "len_blockhash2", "log_blocksize"),
+    "internals::compare::FuzzyHashCompareTarget": ("blockhash1", "blockhash2", "len_blockhash1", "len_blockhash2", "log_blocksize"),
+}
+
+
+def _field_of(e, owner, pidx):
+    """name of the field F when e denotes `param<pidx>.F` (whole field: behind references, an unsizing cast, `[..]`, or `.iter()`)"""
+    e = strip(e)
+    while True:
+        if e[0] == "cast":
+            e = strip(e[1])
+            continue
+        if e[0] == "call" and e[1].split("::")[-1] in ("iter", "as_slice", "as_ref", "deref") and len(e[2]) == 1:
+            e = strip(e[2][0])
+            continue
+        if e[0] == "call" and e[1].split("::")[-1] == "index" and len(e[2]) == 2:
+            r = canon(strip(e[2][1]))
+            if r.startswith("core::ops::RangeFull"):
+                e = strip(e[2][0])
+                continue
+        break
+    if e[0] == "field" and len(e) > 3 and e[3] == owner:
+        b = e[1]
+        while b[0] in ("ref", "deref"):
+            b = b[1]
+        if b[0] == "param" and b[1] == pidx:
+            return e[2]
+    return None
+
+
+def _eq_unit(prog, sy, e, owner):
+    """field name when e is a test that `self.F == other.F` as a whole: `==` on the fields, on `[..]` of them, or
+    `self.F.iter().zip(other.F.iter()).all(|(l, r)| l == r)`"""
+    from .validate import expand_cells
+    e = strip(e)
+    if e[0] == "bin" and e[1] == "Eq":
+        a, b = e[2], e[3]
+    elif e[0] == "call" and re.search(r"::eq(::<[^()]*>)?$", e[1]) and len(e[2]) == 2:
+        a, b = e[2]
+    elif e[0] == "call" and e[1].endswith("::all") and len(e[2]) == 2:
+        src = strip(expand_cells(sy, e[2][0]))
+        if src[0] in ("ref",):
+            src = strip(src[1])
+        src = strip(sy.origin(src)) if src[0] == "local" else src
+        cl = strip(e[2][1])
+        if not (src[0] == "call" and src[1].split("::")[-1] == "zip" and len(src[2]) == 2 and cl[0] == "agg" and cl[1].startswith("Closure:")):
+            return None
+        g = prog.get(cl[1][len("Closure:"):])
+        if g is None or cl[2]:
+            return None
+        body = canon(strip(Sym(g).local(0)))
+        # the closure compares the two halves of the pair it is given, and nothing else
+        if not re.match(r"^(?:.*::)?eq(?:::<[^()]*>)?\(param:\w*2\.0,param:\w*2\.1\)$|^Eq\(param:\w*2\.0,param:\w*2\.1\)$", re.sub(r"^.*?(?=(?:[\w:<>, \[\];&']*::)?eq[(:]|Eq\()", "", body)) and \
+                not re.search(r"(::eq(?:::<[^()]*>)?|^Eq)\(param:\w*2\.0,param:\w*2\.1\)$", body):
+            return None
+        a, b = src[2]
+    else:
+        return None
+    fa, fb = _field_of(a, owner, 1), _field_of(b, owner, 2)
+    if fa is None or fb is None:
+        fa, fb = _field_of(a, owner, 2), _field_of(b, owner, 1)
+    return fa if fa is not None and fa == fb else None
+
+
+def full_eq(ctx, prog):
+    """`full_eq` (structural equality that must hold for ANY content): every result other than `false` requires, for every field F of
+    the type, a whole-field test `self.F == other.F` to have come out equal; there is no constant `true`.  Read from the conditions on
+    the paths, so `&&` chains, early-return ladders and nested `if`s are the same thing."""
+    from ..sym import path_conds, bool_atom
+    F.doc_fields(ctx)
+    n = 0
+    for owner, fields in FULL_EQ.items():
+        fs = [f for f in prog.fns if f.path.startswith(owner + "::") and f.path.endswith("::full_eq") and "closure" not in f.path]
+        if len(fs) != 1:
+            ctx.ob("ANCHOR", "full_eq of %s" % owner.split("::")[-1], False, "%d bodies" % len(fs))
+            continue
+        f = fs[0]
+        n += 1
+        ctx.visit(f)
+        sy = Sym(f)
+        sites = []
+        for i, j, s in f.stmts():
+            if s["s"] == "assign" and s["lhs"]["l"] == 0 and not s["lhs"]["p"]:
+                sites.append((i, strip(sy.rvalue(s["rv"]))))
+        for i, t in f.calls():
+            if t["dest"]["l"] == 0 and not t["dest"]["p"]:
+                sites.append((i, strip(sy.call(t, i))))
+        bad = []
+        n_res = 0
+        for blk, v in sites:
+            if v[0] == "const" and v[1] == 0:
+                continue
+            n_res += 1
+            have = set()
+            if v[0] == "const":
+                pass   # `true` at the end of a ladder: everything must come from the path
+            else:
+                u = _eq_unit(prog, sy, v, owner)
+                if u is None:
+                    bad.append("result %s at bb%d is not a whole-field comparison" % (show(v)[:70], blk))
+                    continue
+                have.add(u)
+            for c in path_conds(f, sy, blk):
+                a = bool_atom(c)
+                if not a:
+                    continue
+                if a[0] == "Eq":
+                    u = _eq_unit(prog, sy, ("bin", "Eq", a[1], a[2]), owner)
+                elif a[0] == "truth" and a[2] is True:
+                    u = _eq_unit(prog, sy, a[1], owner)
+                elif a[0] == "truth" and a[2] is False and strip(a[1])[0] == "call" and re.search(r"::ne(::<[^()]*>)?$", strip(a[1])[1]) and len(strip(a[1])[2]) == 2:
+                    u = _eq_unit(prog, sy, ("bin", "Eq", strip(a[1])[2][0], strip(a[1])[2][1]), owner)
+                else:
+                    u = None
+                if u:
+                    have.add(u)
+            miss = sorted(set(fields) - have)
+            if miss:
+                bad.append("result at bb%d does not require equality of %s" % (blk, miss))
+        ctx.ob(R, "%s::full_eq: every non-false result requires `self.F == other.F` (whole field) for every field F" % owner.split("::")[-1],
+               not bad and n_res >= 1, "; ".join(bad)[:500] or "%d non-false result site(s), %d fields" % (n_res, len(fields)), f.loc())
+    ctx.floor(R, n, 2, "full_eq bodies")
